@@ -268,6 +268,8 @@ func (*VersionInformation) GetGREASEVersion() uint32 {
 		return VERSION_GREASE
 	}
 
+	// keep only the high nibble of every byte: OR-ing alone leaves stray low-nibble bits
+	randVal.And(randVal, big.NewInt(0xf0f0f0f0))
 	return uint32(randVal.Uint64()&math.MaxUint32) | 0x0a0a0a0a // all GREASE versions are in 0x?a?a?a?a
 }
 
